@@ -73,6 +73,59 @@ def _substitution_mechanism(ctx, callfn) -> T.Tuple[str, str, str]:
     raise AnalysisError(f"C12/R1: per-token substitution not enumerated: `{unparse(comp.elt)[:80]}`")
 
 
+def configured_message_rule(ctx, rule: str) -> None:
+    """A configured commit/tag message is what the config file says: INI values literal, only quotes/blanks stripped on the
+    way into Config, and the default only when the key is absent (an empty message is a message: lightweight tag)."""
+    prog = ctx.prog
+    # (c'') a configured template is what the config file says: the INI reader takes values literally, and on the way into
+    #       Config.commit_message / tag_message only surrounding quotes and blanks are stripped
+    from checks.c07 import ini_verbatim_rule
+    ini_verbatim_rule(ctx, rule)
+    pcf = prog.function("config._parse_config")
+    ctx.visit(pcf.fq)
+    ctor = [c for c in ast.walk(pcf.node) if isinstance(c, ast.Call) and unparse(c.func) == "Config"]
+    ctx.require(len(ctor) == 1, "_parse_config: Config(...) constructor not found")
+    EDITING = {"replace", "format", "lower", "upper", "title", "expandtabs", "translate", "encode", "casefold", "capitalize", "swapcase", "lstrip", "rstrip",
+               "removeprefix", "removesuffix", "zfill", "center", "ljust", "rjust", "splitlines", "split", "join"}
+    for which in ("commit_message", "tag_message"):
+        v = shapes.kwargs_of(ctor[0]).get(which)
+        ctx.require(v is not None, f"Config({which}=...) not found")
+        exprs: T.List[T.Tuple[T.Any, ast.AST]] = [(pcf, shapes.inline(pcf, v, prog))]
+        if isinstance(v, ast.Name):
+            # every definition of the local that carries the message (it is usually re-bound: read, then stripped)
+            exprs += [(pcf, d_) for _st, d_ in shapes.local_defs(pcf, v.id) if d_ is not None]
+        # helpers of the module that are called with the key of this message
+        for c in ast.walk(pcf.node):
+            if isinstance(c, ast.Call) and any(const_str(a_) == which for a_ in c.args):
+                t = prog.resolve_call(pcf, c, count=False)
+                if t.kind == "func" and t.fn is not None and t.fn.module is pcf.module:
+                    exprs.append((t.fn, t.fn.node))
+        defaulted = [b_ for _o, e_ in exprs for b_ in ast.walk(e_) if isinstance(b_, ast.BoolOp) and isinstance(b_.op, ast.Or)
+                     and any(isinstance(x_, ast.Call) and isinstance(x_.func, ast.Attribute) and x_.func.attr == "get" and x_.args and const_str(x_.args[0]) == which for x_ in ast.walk(b_.values[0]))]
+        defaulted += [i_ for _o, e_ in exprs for i_ in ast.walk(e_) if isinstance(i_, ast.IfExp) and unparse(i_.test).replace('"', "'") in (f"raw_cfg.get('{which}')", f"raw_cfg['{which}']")]
+        ctx.check(rule, not defaulted, f"_parse_config: the default {which} is used only when the key is absent",
+                  f"config._parse_config: an explicitly empty {which} is replaced by the default",
+                  f"`{unparse(defaulted[0])[:80]}`: `tag_message = \"\"` (the documented way to ask for a lightweight tag) falls back to the default template and "
+                  f"`git tag --annotate` is issued" if defaulted else "", loc=pcf.loc(defaulted[0]) if defaulted else pcf.loc(), witness={which: ""})
+        edits = []
+        for owner, e in exprs:
+            for c in ast.walk(e):
+                if not isinstance(c, ast.Call):
+                    continue
+                nm = unparse(c.func)
+                if nm.startswith("os.path.") or nm.startswith("os.environ") or nm in ("os.getenv", "re.sub", "re.subn", "string.Template", "shlex.quote", "str.format"):
+                    edits.append((owner, c))
+                elif isinstance(c.func, ast.Attribute) and c.func.attr in EDITING:
+                    edits.append((owner, c))
+                elif isinstance(c.func, ast.Attribute) and c.func.attr == "strip" and not (c.args and const_str(c.args[0]) is not None and set(const_str(c.args[0])) <= set("'\" \t")):
+                    edits.append((owner, c))
+        ctx.check(rule, not edits, f"_parse_config: Config.{which} is the configured text, stripped of surrounding quotes / blanks only",
+                  f"config._parse_config: the configured {which} is edited before it becomes the template",
+                  f"`{unparse(edits[0][1])[:80]}` in {edits[0][0].fq}: e.g. `$HOME` / `~` in a configured message are expanded before the message reaches git" if edits else "",
+                  loc=edits[0][0].loc(edits[0][1]) if edits else pcf.loc(), witness={which: "deploy to $HOME/releases: {new_version}"})
+
+
+
 def run(ctx) -> None:
     prog, effects = ctx.prog, ctx.effects
     ctx.rule("R1", "tokenise before substituting: no kwargs-derived value reaches shlex.split / shell=True")
@@ -345,42 +398,7 @@ def run(ctx) -> None:
                 raise AnalysisError(f"C12/R3: {which} message template alternative not enumerated: `{txt[:80]}`")
 
     ctx.floor("R3", "alternatives for the commit / tag message templates", n_alt, 2)
-    # (c'') a configured template is what the config file says: the INI reader takes values literally, and on the way into
-    #       Config.commit_message / tag_message only surrounding quotes and blanks are stripped
-    from checks.c07 import ini_verbatim_rule
-    ini_verbatim_rule(ctx, "R3")
-    pcf = prog.function("config._parse_config")
-    ctx.visit(pcf.fq)
-    ctor = [c for c in ast.walk(pcf.node) if isinstance(c, ast.Call) and unparse(c.func) == "Config"]
-    ctx.require(len(ctor) == 1, "_parse_config: Config(...) constructor not found")
-    EDITING = {"replace", "format", "lower", "upper", "title", "expandtabs", "translate", "encode", "casefold", "capitalize", "swapcase", "lstrip", "rstrip",
-               "removeprefix", "removesuffix", "zfill", "center", "ljust", "rjust", "splitlines", "split", "join"}
-    for which in ("commit_message", "tag_message"):
-        v = shapes.kwargs_of(ctor[0]).get(which)
-        ctx.require(v is not None, f"Config({which}=...) not found")
-        exprs: T.List[T.Tuple[T.Any, ast.AST]] = [(pcf, shapes.inline(pcf, v, prog))]
-        # helpers of the module that are called with the key of this message
-        for c in ast.walk(pcf.node):
-            if isinstance(c, ast.Call) and any(const_str(a_) == which for a_ in c.args):
-                t = prog.resolve_call(pcf, c, count=False)
-                if t.kind == "func" and t.fn is not None and t.fn.module is pcf.module:
-                    exprs.append((t.fn, t.fn.node))
-        edits = []
-        for owner, e in exprs:
-            for c in ast.walk(e):
-                if not isinstance(c, ast.Call):
-                    continue
-                nm = unparse(c.func)
-                if nm.startswith("os.path.") or nm.startswith("os.environ") or nm in ("os.getenv", "re.sub", "re.subn", "string.Template", "shlex.quote", "str.format"):
-                    edits.append((owner, c))
-                elif isinstance(c.func, ast.Attribute) and c.func.attr in EDITING:
-                    edits.append((owner, c))
-                elif isinstance(c.func, ast.Attribute) and c.func.attr == "strip" and not (c.args and const_str(c.args[0]) is not None and set(const_str(c.args[0])) <= set("'\" \t")):
-                    edits.append((owner, c))
-        ctx.check("R3", not edits, f"_parse_config: Config.{which} is the configured text, stripped of surrounding quotes / blanks only",
-                  f"config._parse_config: the configured {which} is edited before it becomes the template",
-                  f"`{unparse(edits[0][1])[:80]}` in {edits[0][0].fq}: e.g. `$HOME` / `~` in a configured message are expanded before the message reaches git" if edits else "",
-                  loc=edits[0][0].loc(edits[0][1]) if edits else pcf.loc(), witness={which: "deploy to $HOME/releases: {new_version}"})
+    configured_message_rule(ctx, "R3")
 
     # (d) documented placeholders are supplied, with the right values
     fmt_calls = [c for c in ast.walk(upd.node) if isinstance(c, ast.Call) and isinstance(c.func, ast.Attribute) and c.func.attr == "format"
